@@ -142,8 +142,11 @@ Definition ok (c : case) : bool :=
   | CHist blen thr wmax hlen ops os =>
       let cf := mkCfg blen thr wmax in
       cfg_eqb cf real_cfg && (hlen =? 4) &&
-      (check false false cf (pool0, 1) ops os || check true false cf (pool0, 1) ops os ||
-       check false true cf (pool0, 1) ops os || check true true cf (pool0, 1) ops os)
+      (* lazily: vm_compute evaluates both arguments of || *)
+      (if check false false cf (pool0, 1) ops os then true
+       else if check true false cf (pool0, 1) ops os then true
+       else if check false true cf (pool0, 1) ops os then true
+       else check true true cf (pool0, 1) ops os)
   | CFrames bodies out =>
       list_eqb Z.eqb (concat (map frame bodies)) out &&
       match parse_frames (length bodies) out with
